@@ -504,3 +504,16 @@ Definition chk_cliflow (c : rawcase) : float :=
             else 0%float in
   fmax dl (fmax (fmax (devs dev_exact (f_q fl3) (lnth f 13)) (devs dev_exact (f_sq fl3) (lnth f 14)))
                 (fmax (devs dev_exact (f_r fl3) (lnth f 15)) (devs dev_exact (f_gr fl3) (lnth f 16)))).
+
+(* ---- one -f flag: sc = the five numbers as typed after the file name; zs = [kind (0..3, 4 = unknown name)]
+   out = [[Qmin; Qmax; Y.Offset; Y.Scale; X.Offset; kind]] as found in parse_cli_args(...)["Files"][i] *)
+Definition chk_fileflag (c : rawcase) : float :=
+  let k := match znth (zs c) 0 with 0%Z => KindName rS | 1%Z => KindName rF | 2%Z => KindName rFK | 3%Z => KindName rDCS | _ => KindBad end in
+  match dinfo_of_flag (sc c) k [] [] None with
+  | Ok d =>
+      let kc := match d_kind d with rS => 0%float | rF => 1%float | rFK => 2%float | rDCS => 3%float end in
+      let y := match d_Y d with Some o => o | None => {| o_scale := None; o_offset := None |} end in
+      devs dev_exact [opt_or (d_qmin d) nan; opt_or (d_qmax d) nan; opt_or (o_offset y) nan; opt_or (o_scale y) nan;
+                      match d_X d with Some (Some v) => v | _ => nan end; kc] (lnth (out c) 0)
+  | Err e => dev_exact (err_code e) (fnth (lnth (out c) 0) 0)
+  end.
